@@ -5,7 +5,7 @@ use crate::refeval::*;
 use crate::signcrypt::{msg_of_len, shake_mask};
 use crate::signet::*;
 use crate::threshold::deal;
-use blsful::inner_types::Group;
+use blsful::inner_types::{Group, GroupEncoding};
 use blsful::*;
 use bls12_381_plus::group::Group as RGroup;
 use rand::{Rng, SeedableRng};
@@ -90,6 +90,18 @@ pub fn build<C: BlsSignatureImpl + Clone>(lib: &Lib, c: &Value, rng: &mut ChaCha
                 "UId" => push(TimeCryptCiphertext { u: <C as Pairing>::PublicKey::identity(), ..ct }),
                 "USwap" => push(TimeCryptCiphertext { u: other.u, ..ct }),
                 "VSwap" => push(TimeCryptCiphertext { v: other.v, ..ct }),
+                "VOne" => {
+                    // recover alpha with the real signature, re-mask it with SHA256(1_GT)
+                    let sig = *lib.sk::<C>(k).sign(scheme0, &id).map_err(|e| e.to_string())?.as_raw_value();
+                    let kk = <C as Pairing>::pairing(&[(sig, ct.u)]);
+                    let h1 = Sha256::digest(kk.to_bytes().as_ref());
+                    let h2 = Sha256::digest(<C as Pairing>::PairingResult::identity().to_bytes().as_ref());
+                    let mut c2 = ct.clone();
+                    for i in 0..32 {
+                        c2.v[i] ^= h1[i] ^ h2[i];
+                    }
+                    push(c2);
+                }
                 "VFlip" => {
                     let bits: Vec<usize> = if expand { (0..256).collect() } else { vec![rng.gen_range(0..256)] };
                     for b in bits {
